@@ -6,9 +6,19 @@ Lattice explorer: every (visibility mask, reward matrix) of the announced small 
 assignments / per-column maxima); every enumerated metric tensor is pushed through the real ``Reward`` classes and
 ``CentralizedTaskingEngine.calculateRewards/generateTasking/getCurrentTasking`` and compared with the docstring
 formulae evaluated entry by entry.
+
+Configuration path (what a scenario actually runs): every configured metric LIST (all sequences of the announced
+lengths, repeats and order included) goes through the reward config classes / ``EngineConfig`` -> ``rewardsFactory``
+and the engine chain and is compared with the documented combination of that list; every 'engines' section of 1-3
+engines over a pool of three sensors (all tuples of the announced sensor lists: disjoint, identical, nested, partly
+overlapping, repeated within an engine) goes through the real ``ScenarioBuilder``: a section that lists a sensor id
+twice must be refused at build time, a legal one is run over the fake-ray seam and the tasks table of every step must
+hold at most one decision per sensor id ACROSS engines.
 """
 from __future__ import annotations
 
+from copy import deepcopy
+from datetime import datetime, timedelta
 from itertools import permutations, product
 from math import factorial
 from types import SimpleNamespace
@@ -19,6 +29,9 @@ from verif import framework as fw
 from verif import scen  # installs the in-process fake ray before resonaate is imported (engine module imports ray)
 from verif.oracles import c07_assign as orc
 
+from pydantic import TypeAdapter
+
+from resonaate.common.exceptions import DuplicateSensorError
 from resonaate.common.labels import DecisionLabel, MetricTypeLabel, RewardLabel
 from resonaate.data import setDBPath
 from resonaate.parallel.tasking_reward_generation import RewardCalcResult, TaskingRewardRegistration
@@ -31,10 +44,12 @@ from resonaate.scenario.config.decision_config import (
     MyopicNaiveGreedyDecisionConfig,
     RandomDecisionConfig,
 )
+from resonaate.scenario.config.engine_config import EngineConfig
 from resonaate.scenario.config.reward_config import (
     CombinedRewardConfig,
     CostConstrainedRewardConfig,
     MetricConfig,
+    RewardConfig,
     SimpleSummationRewardConfig,
 )
 from resonaate.tasking.decisions import decisionFactory
@@ -46,6 +61,12 @@ from resonaate.tasking.decisions.decisions import (
 )
 from resonaate.tasking.engine.centralized_engine import CentralizedTaskingEngine
 from resonaate.tasking.metrics import metric_base
+from resonaate.tasking.metrics.information import KLDivergence, ShannonInformation
+from resonaate.tasking.metrics.sensor import SlewDistanceMaximization, SlewTimeMaximization, SlewTimeMinimization
+from resonaate.tasking.metrics.stability import LyapunovStability
+from resonaate.tasking.metrics.state import Range
+from resonaate.tasking.metrics.target import TimeSinceObservation
+from resonaate.tasking.metrics.uncertainty import PositionCovarianceTrace
 from resonaate.tasking.rewards import rewardsFactory
 from resonaate.tasking.rewards.rewards import CombinedReward, CostConstrainedReward, SimpleSummationReward
 
@@ -62,7 +83,22 @@ RULE = (
     "neither all-true nor all-false and rewards on the visible entries not constant (random/all-visible: mask "
     "mixed); relabelling = admissible decision unique and permutation not identity; rewards = some metric slice has "
     "a positive maximum different from 1 (normalisation acts) and the tensor is not constant; engine chain = mask "
-    "mixed. distinct by construction (lattice points; each clause record belongs to exactly one call)."
+    "mixed. distinct by construction (lattice points; each clause record belongs to exactly one call). "
+    "configuration path: (a) every configured metric list = every sequence (order, repeats) over the announced metric "
+    "names and lengths, per reward class, built by three routes (config class, RewardConfig union from a dict, "
+    "EngineConfig from a dict) through rewardsFactory; a list the reward class documents as illegal must be refused "
+    "with the documented exception, a legal one must give a reward over exactly that list and, through "
+    "processResults/calculateRewards/generateTasking/getCurrentTasking on stand-in agents (3 shapes x 2 value tables "
+    "x named masks x munkres/greedy), the reward column = the check's own combination of the configured list and the "
+    "decision column = an optimum of that documented reward; non-trivial = the list repeats a metric name or a metric "
+    "type. (b) every tuple of sensor lists for 1, 2 and 3 engines over the pool {a,b,c} (lists: singles, ordered "
+    "pairs, repeated pairs, abc) through the real ScenarioBuilder, target lists disjoint / partly overlapping / "
+    "identical and policies / reward configurations (repeated metric names included) rotated over the engines: a "
+    "section in which a sensor id occurs twice must raise DuplicateSensorError at build time (non-trivial = >= 2 "
+    "engines), a legal section must build as configured, run 3 steps, and per step and sensor id the tasks table holds "
+    "at most one decision across engines (non-trivial = >= 2 engines task in that step), every engine's block equals "
+    "its matrices, its reward column is the documented combination of its configured list on its own metric columns "
+    "and its decision column the policy's optimum."
 )
 ASSUMPTIONS = [
     "the reward matrix handed to a decision is masked by visibility (metric rows of invisible pairs are zero, hence "
@@ -76,6 +112,18 @@ ASSUMPTIONS = [
     "anything, reproducibility for equal seeds and full support over 64 draws are required",
     "stub Metric subclasses of the library's metric-type base classes stand in for the filter-based metrics (their "
     "values are the subject of other properties)",
+    "configuration path: the VALUE of a metric for a (target, sensor) pair is trusted (subject of other properties): "
+    "the reference evaluates the library's metric class, instantiated by the check from its own name -> class table, "
+    "once per entry of the configured list; which metrics enter the reward, how often and how they are combined is "
+    "the check's own. A metrics list is legal for CostConstrained/Combined iff it has exactly one metric of each "
+    "documented type (ValueError for a wrong count, TypeError for wrong types, either when both), any non-empty list "
+    "is legal for SimpleSummation ('takes any range of metrics, and sums them all together')",
+    "an 'engines' section is legal iff no sensor id occurs twice in it ('Sensor can't be tasked by two engines', "
+    "DuplicateSensorError); targets may be shared by engines (the builder only refuses differing initial states), so "
+    "'at most one sensor per target' is required per engine only; sensors of an AllVisibleDecision engine are exempt "
+    "from the at-most-one clause",
+    "scenario-level reward reference: the engine's own metric columns of the step (normalised again by the check, "
+    "which is idempotent) combined according to the configured list; column count must equal the list length",
 ]
 EXPECT_MIN_NONTRIVIAL = 1000000
 
@@ -270,6 +318,8 @@ def items(tier, seed):
     out += _reward_items(tier, seed)
     out += _engine_items(tier, seed)
     out += [("scenario", pol, kind, seed) for pol in SCEN_POLICIES for kind in SCEN_REWARDS]
+    out += _cfgreward_items(tier, seed)
+    out += _cfgscen_items(tier, seed)
     return out
 
 
@@ -295,6 +345,28 @@ def bounds(tier, seed):
         "and their negated complements: shifts, reversal, affine maps) under 4 masks for shapes " + str(KNOWN_SHAPES),
         "policies": ["MunkresDecision", "MyopicNaiveGreedyDecision", "RandomDecision", "AllVisibleDecision"],
         "rewards": {k: [list(sh) for sh in REWARD_SHAPES] for k in REWARD_KINDS},
+        "configured_metric_lists": {
+            "simple_sum": f"all sequences of length 1-3 over {list(SS_NAMES)}, length 4 over "
+            + (str(list(SS_NAMES)) if tier == "thorough" else str(list(SS_NAMES[:3])))
+            + ", 4 longer lists with 3-5 repeats",
+            "cost_constrained": f"all sequences of length 1-4 over {list(TY_NAMES6)}" + (f", length 5 over {list(TY_NAMES4)}" if tier == "thorough" else ""),
+            "combined": f"all sequences of length 1-4 over {list(TY_NAMES6)}, length 5" + ("-6" if tier == "thorough" else "") + f" over {list(TY_NAMES4)}",
+            "counts": {k: len(_cfg_sequences(k, tier)) for k in REWARD_KINDS},
+            "routes": list(CFG_ROUTES),
+            "deltas_for_legal_typed_lists": ["default", 0.5, 0.25],
+            "numeric_chain": f"shapes {CFG_SHAPES} x 2 stand-in value tables (phase = seed) x masks "
+            + str({f"{t}x{s}": _cfg_masks(t, s) for t, s in CFG_SHAPES}) + " x (munkres, greedy), one route per (list, delta) in rotation",
+        },
+        "engines_sections": {
+            "sensor_pool": "a,b,c = 3 co-located ground radars (which site is 'a' = seed % 3), 5 targets (4 visible to all, 1 never)",
+            "sensor_list_tuples": {str(ne): {"all": len(_cfg_sensor_patterns(ne)), "legal": len(_cfg_split(ne)[0]),
+                                             "must_be_refused": len(_cfg_split(ne)[1])} for ne in (1, 2, 3)},
+            "target_lists": CFG_TARGET_PATTERNS,
+            "policies": "rotated over engines: munkres/greedy/random (variants 0-2), allvisible+munkres (variant 3)",
+            "reward_configurations": [[k, list(n), d] for k, n, d in CFG_SCEN_REWARDS],
+            "per_tuple": "quick: one (target pattern, variant) per tuple in rotation; thorough: all 3 x 4",
+            "steps": CFG_NSTEPS,
+        },
         "work_items_by_kind": kinds,
     }
 
@@ -1342,6 +1414,692 @@ def _run_scenario(res, item):
             res.observe(vis, dec, np.round(rew, 9))
 
 
+# ------------------------------------------------------------------------------------------------ configuration path
+# Everything above builds Reward / Decision / engine objects directly.  A scenario gets them from its configuration:
+# ScenarioConfig -> EngineConfig -> ScenarioBuilder._initTaskingEngines -> rewardsFactory / decisionFactory /
+# _validateSensingAgents.  Two clauses of the property rest on that path alone:
+#   * "rewards are the documented combination of metrics": the combination is over the configured metric LIST
+#     (RewardConfigBase.metrics is a plain list, min_length 1: length, order and repeats are the user's), and
+#   * "each sensor is tasked to at most one target": every engine decides for its own reward matrix, so for the tasks
+#     table of a step this holds only because a sensor belongs to exactly one engine (DuplicateSensorError,
+#     "Sensor can't be tasked by two engines").
+
+# own name -> (class, metric type) table (deliberately not resonaate.tasking.metrics._METRIC_MAPPING)
+CFG_METRICS = {
+    "TimeSinceObservation": (TimeSinceObservation, "target"),
+    "Range": (Range, "state"),
+    "ShannonInformation": (ShannonInformation, "information"),
+    "KLDivergence": (KLDivergence, "information"),
+    "LyapunovStability": (LyapunovStability, "stability"),
+    "SlewTimeMinimization": (SlewTimeMinimization, "sensor"),
+    "SlewTimeMaximization": (SlewTimeMaximization, "sensor"),
+    "SlewDistanceMaximization": (SlewDistanceMaximization, "sensor"),
+    "PositionCovarianceTrace": (PositionCovarianceTrace, "uncertainty"),
+}
+CFG_REWARD_LABEL = {"simple_sum": "SimpleSummationReward", "cost_constrained": "CostConstrainedReward", "combined": "CombinedReward"}
+CFG_REWARD_CLASS = {"simple_sum": SimpleSummationReward, "cost_constrained": CostConstrainedReward, "combined": CombinedReward}
+CFG_CONFIG_CLASS = {"simple_sum": SimpleSummationRewardConfig, "cost_constrained": CostConstrainedRewardConfig,
+                    "combined": CombinedRewardConfig}
+CFG_NEEDS = {"cost_constrained": ("information", "stability", "sensor"),
+             "combined": ("information", "stability", "sensor", "target")}
+# simple summation: one name of every metric type plus a second information metric (two names of one type)
+SS_NAMES = ("TimeSinceObservation", "Range", "ShannonInformation", "KLDivergence", "LyapunovStability",
+            "SlewTimeMaximization", "PositionCovarianceTrace")
+# typed rewards: the four required types, plus a second information and a second sensor metric
+TY_NAMES4 = ("ShannonInformation", "LyapunovStability", "SlewTimeMinimization", "TimeSinceObservation")
+TY_NAMES6 = TY_NAMES4 + ("KLDivergence", "SlewDistanceMaximization")
+CFG_ROUTES = ("config_class", "reward_union_from_dict", "engine_config_from_dict")
+CFG_SHAPES = [(2, 1), (2, 2), (3, 2)]
+CFG_STRIDE = {"simple_sum": 10, "cost_constrained": 4, "combined": 8}  # work items per reward class (interleaved)
+_REWARD_ADAPTER = TypeAdapter(RewardConfig)
+
+
+def _cfg_sequences(kind, tier):
+    """Configured metric lists: EVERY sequence (order and repeats matter) of the announced lengths."""
+    thorough = tier == "thorough"
+    if kind == "simple_sum":
+        seqs = [q for n in (1, 2, 3) for q in product(SS_NAMES, repeat=n)]
+        seqs += list(product(SS_NAMES if thorough else SS_NAMES[:3], repeat=4))
+        seqs += [("TimeSinceObservation",) * 5, ("TimeSinceObservation", "Range") * 3,
+                 ("Range",) + ("ShannonInformation",) * 4 + ("Range",), ("KLDivergence", "ShannonInformation") * 2 + ("KLDivergence",)]
+        return seqs
+    if kind == "cost_constrained":
+        seqs = [q for n in (1, 2, 3, 4) for q in product(TY_NAMES6, repeat=n)]
+        if thorough:
+            seqs += list(product(TY_NAMES4, repeat=5))
+        return seqs
+    seqs = [q for n in (1, 2, 3, 4) for q in product(TY_NAMES6, repeat=n)]
+    seqs += list(product(TY_NAMES4, repeat=5))
+    if thorough:
+        seqs += list(product(TY_NAMES4, repeat=6))
+    return seqs
+
+
+def _cfg_legal(kind, names):
+    """(legal?, exception the reward class documents).  The typed rewards need exactly one metric of each required
+    type: 'ValueError: raised if not supplied three [four] metric objects', 'TypeError: raised if not supplied one of
+    each metric type'.  With the right count, 'every required type present' already means exactly one of each."""
+    if kind == "simple_sum":
+        return True, None
+    need = CFG_NEEDS[kind]
+    types = [CFG_METRICS[n][1] for n in names]
+    count_ok = len(names) == len(need)
+    types_ok = all(ty in types for ty in need)
+    if count_ok and types_ok:
+        return True, None
+    if count_ok:
+        return False, ("TypeError",)
+    return False, ("ValueError",) if types_ok else ("ValueError", "TypeError")
+
+
+_CFG_TEMPLATE = {}
+
+
+def _cfg_reward_config(kind, names, delta, route):
+    body = {"name": CFG_REWARD_LABEL[kind], "metrics": [{"name": n} for n in names]}
+    if delta is not None:
+        body["delta"] = delta
+    if route == "config_class":
+        kw = {} if delta is None else {"delta": delta}
+        return CFG_CONFIG_CLASS[kind](metrics=[MetricConfig(name=n) for n in names], **kw)
+    if route == "reward_union_from_dict":
+        return _REWARD_ADAPTER.validate_python(body)
+    if not _CFG_TEMPLATE:
+        _CFG_TEMPLATE.update(scen.engine(1, [scen.target_eci(10001, *scen.LEO_A)], [scen.ground_sensor(20001, 10.0, 20.0)]))
+    eng = deepcopy(_CFG_TEMPLATE)
+    eng["reward"] = body
+    return EngineConfig(**eng).reward
+
+
+_CFG_JD = 2459304.5
+_CFG_STALE = (600.0, 360.0, 480.0, 240.0)  # seconds since the last observation
+_CFG_RADIUS = (7378.0, 8078.0, 7678.0, 8478.0)  # km; the stalest target is the closest: the metrics disagree
+_CFG_FRAC = (0.5, 0.8, 0.3, 0.9)  # est_p = frac * pred_p
+_CFG_STANDINS = {}
+
+
+def _cfg_standins(t, s, w):
+    """Plain stand-in agents carrying exactly the attributes the library's metric classes read."""
+    key = (t, s, w)
+    if key not in _CFG_STANDINS:
+        ests, sens = [], []
+        for i in range(t):
+            k = (i + w) % 4
+            ang = 0.02 * (i + 1)
+            pos = _CFG_RADIUS[k] * np.array([np.cos(ang), np.sin(ang), 0.01 * i])
+            pred = np.diag([4.0 + k, 3.0, 2.0 + 0.5 * i, 1.0e-3, 2.0e-3, 1.0e-3 * (1 + k)])
+            ests.append(SimpleNamespace(
+                row=i, simulation_id=300 + 7 * i, julian_date_epoch=_CFG_JD,
+                last_observed_at=_CFG_JD - _CFG_STALE[k] / 86400.0,
+                eci_state=np.array([pos[0], pos[1], pos[2], 0.0, 7.3, 0.0]),
+                nominal_filter=SimpleNamespace(pred_p=pred, est_p=_CFG_FRAC[k] * pred, time=60.0 * (1 + k)),
+                # trace ratio above one for even k, below one for odd k: both signs of the stability metric
+                initial_covariance=np.diag([2.0, 2.0, 2.0, 1e-3, 1e-3, 1e-3]) * (1.0 if k % 2 == 0 else 4.0),
+            ))
+        for j in range(s):
+            ang = -0.03 * j
+            bore = np.array([0.3, 0.5 + 0.1 * j + 0.05 * w, 0.8])
+            bore = bore / np.linalg.norm(bore)
+            sens.append(SimpleNamespace(
+                col=j, simulation_id=100 + 3 * j, datetime_epoch=datetime(2021, 3, 30, 16, 0, 0),
+                eci_state=np.array([6378.0 * np.cos(ang), 6378.0 * np.sin(ang), 0.0, 0.0, 0.46, 0.0]),
+                sensors=SimpleNamespace(
+                    slew_rate=np.radians(3.0) * (1 + j), r_matrix=np.eye(2) * 1.0e-6,
+                    deltaBoresight=lambda v, bore=bore: float(np.arccos(np.clip(np.dot(v, bore) / np.linalg.norm(v), -1.0, 1.0))),
+                ),
+            ))
+        # reference tables: value of each metric name for each pair, from the check's own instances
+        tables = {}
+        for name, (cls, _ty) in CFG_METRICS.items():
+            inst = cls()
+            tables[name] = np.array([[float(inst.calculate(e, se)) for se in sens] for e in ests])
+        _CFG_STANDINS[key] = (ests, sens, tables)
+    return _CFG_STANDINS[key]
+
+
+def _cfg_masks(t, s):
+    n = t * s
+    full = (1 << n) - 1
+    if n <= 2:
+        return [m for m in range(1, full + 1)]
+    if n == 4:
+        return [full, 0b1001, 0b0110, full & ~1, full & ~8]
+    return [full, 0b011001, full & ~4]
+
+
+def _cfgreward_items(tier, seed):
+    out = []
+    for kind in REWARD_KINDS:
+        n = len(_cfg_sequences(kind, tier))
+        step = CFG_STRIDE[kind] * (4 if tier == "thorough" else 1)
+        out += [("cfgreward", kind, c0, n, step, seed, tier) for c0 in range(step)]  # sequences c0, c0+step, ...
+    return out
+
+
+def _run_cfgreward(res, item):
+    """Rewards built from configuration (config classes / the discriminated union / EngineConfig -> rewardsFactory,
+    the call ScenarioBuilder._initTaskingEngines makes) for every configured metric list of the announced alphabet."""
+    _, kind, c0, c1, stride, seed, tier = item
+    seqs = _cfg_sequences(kind, tier)
+    for q in range(c0, min(c1, len(seqs)), stride):
+        names = list(seqs[q])
+        legal, want_exc = _cfg_legal(kind, names)
+        it = ("cfgreward", kind, q, q + 1, 1, seed, tier)
+        deltas = (None,) if (kind == "simple_sum" or not legal) else (None, 0.5, 0.25)
+        repeated = len(set(names)) < len(names)
+        for di, delta in enumerate(deltas):
+            for ri, route in enumerate(CFG_ROUTES):
+                case = {"reward": kind, "metrics": names, "delta": delta, "route": route}
+                try:
+                    cfg = _cfg_reward_config(kind, names, delta, route)
+                    parsed = [str(getattr(m.name, "value", m.name)) for m in cfg.metrics]
+                except Exception as exc:  # noqa: BLE001
+                    res.case("config/reward/metric_list_kept_by_config", case, False,
+                             signature=f"C07/config/reward/{kind}/config_class_refuses_metric_list",
+                             observed=f"{type(exc).__name__}: {exc}"[:300], expected="metrics: list[MetricConfig], min_length 1", item=it)
+                    continue
+                res.case("config/reward/metric_list_kept_by_config", case, parsed == names,
+                         signature=f"C07/config/reward/{kind}/config_changes_metric_list", observed=parsed, expected=names, item=it)
+                reward, err = None, None
+                try:
+                    reward = rewardsFactory(cfg)
+                except Exception as exc:  # noqa: BLE001
+                    err = (type(exc).__name__, f"{type(exc).__name__}: {exc}"[:300])
+                if not legal:
+                    ok = reward is None and err[0] in want_exc
+                    built = None if reward is None else [type(m).__name__ for m in reward.metrics]
+                    sig = ("illegal_metric_list_accepted" if reward is not None else "illegal_metric_list_refused_with_other_exception")
+                    res.case(f"config/reward/illegal_metric_list_refused/{kind}", case, ok, nontrivial=repeated,
+                             signature=f"C07/config/reward/{kind}/{sig}",
+                             observed={"metrics_of_built_reward": built} if reward is not None else err[1],
+                             expected=" or ".join(want_exc) + f" (needs exactly one metric of each of {list(CFG_NEEDS[kind])})",
+                             outcome="count_wrong" if len(names) != len(CFG_NEEDS[kind]) else "types_wrong", item=it)
+                    continue
+                if reward is None:
+                    res.case(f"config/reward/legal_metric_list_builds/{kind}", case, False,
+                             signature=f"C07/config/reward/{kind}/legal_metric_list_refused", observed=err[1], item=it)
+                    continue
+                built = [type(m).__name__ for m in reward.metrics]
+                ok_b = type(reward) is CFG_REWARD_CLASS[kind] and built == names
+                res.case(f"config/reward/metrics_built_are_the_configured_list/{kind}", case, ok_b,
+                         signature=f"C07/config/reward/{kind}/metrics_built_differ_from_configured_list",
+                         observed=[type(reward).__name__, built], expected=[CFG_REWARD_CLASS[kind].__name__, names], item=it)
+                if (q + di) % len(CFG_ROUTES) == ri:
+                    _cfg_numeric(res, case, it, kind, names, delta, reward, seed)
+
+
+def _cfg_numeric(res, case0, it, kind, names, delta, reward, seed):
+    """metric rows as asyncCalculateReward assembles them (calculateMetrics of the visible pairs, zeros elsewhere) ->
+    processResults -> calculateRewards -> generateTasking -> getCurrentTasking, against the documented combination of
+    the CONFIGURED list evaluated by the check (own metric instances, own normalisation, own formulae)."""
+    dval = 0.85 if delta is None else delta
+    types = [CFG_METRICS[n][1] for n in names]
+    uniq = list(dict.fromkeys(names))
+    jd = JulianDate(_CFG_JD)
+    nontriv_list = len(set(names)) < len(names) or len(set(types)) < len(types)
+    for t, s in CFG_SHAPES:
+        target_ids = [300 + 7 * (t - 1 - k) for k in range(t)]  # given unsorted; the engine sorts
+        sensor_ids = [100 + 3 * (s - 1 - k) for k in range(s)]
+        t_sorted, s_sorted = sorted(target_ids), sorted(sensor_ids)
+        for w in ((seed % 4), (seed + 1) % 4):
+            ests, sens, tables = _cfg_standins(t, s, w)
+            full_ref = np.stack([tables[n] for n in names], axis=-1)
+            dedup_ref = np.stack([tables[n] for n in uniq], axis=-1)
+            try:
+                lib_full = np.array([[np.asarray(reward.calculateMetrics(ests[i], sens[j]), dtype=float) for j in range(s)]
+                                     for i in range(t)])
+            except Exception as exc:  # noqa: BLE001
+                res.case("config/reward/no_exception", dict(case0, T=t, S=s, tables=w), False,
+                         signature=f"C07/config/reward/{kind}/exception", observed=f"{type(exc).__name__}: {exc}"[:300], item=it)
+                continue
+            for m in _cfg_masks(t, s):
+                vis = orc.unpack(m, t, s)
+                ref = orc.reward_ref(kind, types, orc.normalise_ref(np.where(vis[..., None], full_ref, 0.0)), dval)
+                flips = "n/a"
+                if kind == "simple_sum":
+                    alt = orc.reward_ref(kind, None, orc.normalise_ref(np.where(vis[..., None], dedup_ref, 0.0)), dval)
+                    flips = int(bool((np.argmax(np.where(vis, alt, -np.inf), axis=0) != np.argmax(np.where(vis, ref, -np.inf), axis=0))[vis.any(axis=0)].any()))
+                for pol in POLICIES:
+                    case = dict(case0, policy=pol, T=t, S=s, mask=int(m), tables=w)
+                    try:
+                        engine = _engine(t, s, reward, _decisions()[pol], sensor_ids=sensor_ids, target_ids=target_ids)
+                        p_lib = engine.num_metrics
+                        engine.visibility_matrix = np.zeros((t, s), dtype=bool)
+                        engine.metric_matrix = np.zeros((t, s, p_lib))
+                        engine.reward_matrix = np.zeros((t, s))
+                        engine.decision_matrix = np.zeros((t, s), dtype=bool)
+                        for i in [(r * 2 + 1 + w) % t if t % 2 else (t - 1 - r) for r in range(t)]:
+                            reg = TaskingRewardRegistration(engine, None, reward, [None] * s)
+                            reg.processResults(RewardCalcResult(estimate_id=t_sorted[i], visibility=vis[i].copy(),
+                                                                metric_matrix=np.where(vis[i][:, None], lib_full[i], 0.0)))
+                        engine.calculateRewards()
+                        engine.generateTasking()
+                        rows = list(engine.getCurrentTasking(jd))
+                    except Exception as exc:  # noqa: BLE001
+                        res.case("config/reward/no_exception", case, False, signature=f"C07/config/reward/{kind}/exception",
+                                 observed=f"{type(exc).__name__}: {exc}"[:300], item=it)
+                        continue
+                    got_r = np.full((t, s), np.nan)
+                    got_d = np.zeros((t, s), dtype=bool)
+                    for row in rows:
+                        i, j = t_sorted.index(row.target_id), s_sorted.index(row.sensor_id)
+                        got_r[i, j], got_d[i, j] = float(row.reward), bool(row.decision)
+                    ok_r = len(rows) == t * s and bool(np.isfinite(got_r).all()) and fw.maxabs(got_r, ref) <= TOL
+                    res.case(f"config/reward/documented_combination_of_configured_list/{kind}", case, ok_r,
+                             nontrivial=nontriv_list and pol == POLICIES[0],
+                             signature=f"C07/config/reward/{kind}/reward_is_not_the_combination_of_the_configured_list",
+                             observed=None if ok_r else {"reward_column": got_r.tolist(), "metrics_used": p_lib},
+                             expected=None if ok_r else {"reward": ref.tolist(), "metrics_configured": len(names)},
+                             outcome=f"len={len(names)},distinct_names={len(uniq)},distinct_types={len(set(types))}", item=it)
+                    feas = not (got_d & ~vis).any() and got_d.sum(axis=0).max() <= 1
+                    if pol == "munkres":
+                        _opt, dcodes, near = orc.assignment_oracle(ref[None], vis[None], tol=TOL)
+                        good = feas and got_d.sum(axis=1).max() <= 1 and bool((near & (dcodes == orc.pack(got_d[None])[:, None])).any())
+                    else:
+                        okg, _u, _ = orc.greedy_oracle(ref[None], vis[None], got_d[None], tol=TOL)
+                        good = feas and bool(okg[0])
+                    res.case(f"config/decision_is_optimum_of_documented_reward/{pol}", case, bool(good),
+                             nontrivial=nontriv_list and 0 < int(vis.sum()),
+                             signature=f"C07/config/reward/{kind}/decision_not_an_optimum_of_the_documented_reward/{pol}",
+                             observed=None if good else {"decision": got_d.tolist(), "reward_column": got_r.tolist()},
+                             expected=None if good else {"documented_reward": ref.tolist(), "visible": vis.tolist()},
+                             outcome=f"tasked={int(got_d.sum())},dropping_repeats_would_change_greedy_choice={flips}", item=it)
+                    res.observe(np.round(got_r, 9), got_d)
+
+
+# ---------------------------------------------------------------------------------- several engines, one scenario
+CFG_POOL = "abc"
+CFG_SENSOR_IDS = (20001, 20002, 20003)
+CFG_SITES = ((10.0, 20.0), (10.0, 20.6), (10.5, 20.2))
+CFG_ENGINE_IDS = (5, 2, 9)  # deliberately not ascending
+CFG_STEP, CFG_NSTEPS = 60, 3
+CFG_POLICY_ROT = ("munkres", "greedy", "random")
+# per-engine reward configurations of the scenario-level cases (rotated over the engines): single metric, repeated
+# metrics, every reward class
+CFG_SCEN_REWARDS = [
+    ("simple_sum", ("TimeSinceObservation",), None),
+    ("simple_sum", ("TimeSinceObservation", "TimeSinceObservation", "Range"), None),
+    ("cost_constrained", ("ShannonInformation", "LyapunovStability", "SlewTimeMinimization"), 0.5),
+    ("simple_sum", ("Range", "TimeSinceObservation", "Range", "ShannonInformation", "TimeSinceObservation"), None),
+    ("combined", ("TimeSinceObservation", "SlewTimeMinimization", "LyapunovStability", "ShannonInformation"), None),
+    ("simple_sum", ("ShannonInformation", "ShannonInformation"), None),
+]
+# target lists of the engines (indices into the target pool; 5 = a target no sensor of the pool ever sees)
+CFG_TARGET_PATTERNS = {
+    1: {"disjoint": [(1, 2, 3, 4, 5)], "partial": [(4, 2, 5, 1)], "identical": [(3, 1, 2)]},
+    2: {"disjoint": [(1, 2), (3, 4, 5)], "partial": [(1, 2, 5), (4, 3, 2)], "identical": [(1, 2, 3, 5), (1, 2, 3, 5)]},
+    3: {"disjoint": [(1, 2), (3,), (4, 5)], "partial": [(1, 2), (3, 2), (5, 3, 4)], "identical": [(1, 2, 3, 4)] * 3},
+}
+CFG_TPAT_NAMES = ("disjoint", "partial", "identical")
+CFG_REFUSE_CHUNK = 80
+
+
+def _cfg_sensor_patterns(n_engines):
+    """Sensor lists of the engines over the pool {a,b,c}: EVERY tuple of lists of the announced list alphabet."""
+    singles = [(x,) for x in CFG_POOL]
+    pairs_distinct = [(x, y) for x in CFG_POOL for y in CFG_POOL if x != y]
+    pairs_same = [(x, x) for x in CFG_POOL]
+    if n_engines == 1:
+        lists = singles + pairs_distinct + pairs_same + [("a", "b", "c"), ("c", "a", "b"), ("a", "b", "a"), ("a", "a", "b"), ("b", "c", "c")]
+    elif n_engines == 2:
+        lists = singles + pairs_distinct + pairs_same + [("a", "b", "c")]
+    else:
+        lists = singles + pairs_distinct
+    return [list(p) for p in product(lists, repeat=n_engines)]
+
+
+def _cfg_pattern_class(pattern):
+    """legal <=> no sensor id occurs twice in the whole 'engines' section; otherwise the kind of overlap."""
+    flat = [x for lst in pattern for x in lst]
+    if len(set(flat)) == len(flat):
+        return "legal"
+    if any(len(set(lst)) < len(lst) for lst in pattern):
+        return "sensor_repeated_within_one_engine"
+    seen, kinds = [], set()
+    for lst in pattern:
+        cur = set(lst)
+        earlier = set().union(*seen) if seen else set()
+        if cur & earlier:
+            if any(cur == e for e in seen):
+                kinds.add("copy")
+            elif cur <= earlier:
+                kinds.add("subset")
+            else:
+                kinds.add("own")
+        seen.append(cur)
+    if "own" in kinds:
+        return "later_engine_shares_some_sensors_and_has_its_own"
+    if "subset" in kinds:
+        return "later_engine_is_a_subset_of_earlier_engines"
+    return "later_engine_repeats_an_earlier_engine"
+
+
+def _cfg_split(n_engines):
+    pats = _cfg_sensor_patterns(n_engines)
+    legal = [p for p in pats if _cfg_pattern_class(p) == "legal"]
+    illegal = [p for p in pats if _cfg_pattern_class(p) != "legal"]
+    return legal, illegal
+
+
+def _cfgscen_items(tier, seed):
+    out = []
+    for ne in (1, 2, 3):
+        legal, illegal = _cfg_split(ne)
+        for k, pat in enumerate(legal):
+            combos = [(a, b) for a in range(3) for b in range(4)] if tier == "thorough" else [((k + seed) % 3, (k // 3 + seed) % 4)]
+            for tp, variant in combos:
+                out.append(("cfgscen", ne, k, tp, variant, seed))
+        for c0 in range(0, len(illegal), CFG_REFUSE_CHUNK):
+            out.append(("cfgrefuse", ne, c0, min(c0 + CFG_REFUSE_CHUNK, len(illegal)), seed, tier))
+    out.append(("cfgbadreward", seed))
+    return out
+
+
+def _cfg_world(seed):
+    start = datetime(2021, 3, 30, 16, 0, 0) + timedelta(minutes=11 * (seed % 7))
+    when = start + timedelta(seconds=CFG_STEP)
+    targets = {
+        1: scen.target_eci(10001, *scen.overhead_orbit(when, 10.0, 20.0, 900.0)),
+        2: scen.target_eci(10002, *scen.overhead_orbit(when, 10.2, 20.3, 1200.0, heading_deg=45.0)),
+        3: scen.target_eci(10003, *scen.overhead_orbit(when, 10.0, 20.5, 6000.0)),
+        4: scen.target_eci(10004, *scen.overhead_orbit(when, 9.8, 19.8, 1500.0, heading_deg=135.0)),
+        5: scen.target_eci(10005, *scen.overhead_orbit(when, -10.0, 200.0, 900.0)),
+    }
+    rot = seed % 3  # which site is "a"
+    sensors = {x: scen.ground_sensor(CFG_SENSOR_IDS[(k + rot) % 3], *CFG_SITES[(k + rot) % 3]) for k, x in enumerate(CFG_POOL)}
+    return start, targets, sensors
+
+
+def _cfg_engines(pattern, tp, variant, k, world, seed):
+    """engine dicts + what the check expects of every engine (ids in configured order, policy, reward, metric list)."""
+    _start, targets, sensors = world
+    tlists = CFG_TARGET_PATTERNS[len(pattern)][CFG_TPAT_NAMES[tp]]
+    engs, expect = [], []
+    for e, letters in enumerate(pattern):
+        if variant == 3:
+            pol = "allvisible" if e % 2 == 0 else "munkres"
+        else:
+            pol = CFG_POLICY_ROT[(e + variant) % 3]
+        kind, names, delta = CFG_SCEN_REWARDS[(e + k + variant) % len(CFG_SCEN_REWARDS)]
+        eng = scen.engine(CFG_ENGINE_IDS[e], [deepcopy(targets[i]) for i in tlists[e]], [deepcopy(sensors[x]) for x in letters],
+                          decision=SCEN_POLICIES[pol], reward=CFG_REWARD_LABEL[kind], metrics=[{"name": n} for n in names])
+        if delta is not None:
+            eng["reward"]["delta"] = delta
+        if pol == "random":
+            eng["decision"]["seed"] = seed + 3 + e
+        engs.append(eng)
+        expect.append({"id": CFG_ENGINE_IDS[e], "policy": pol, "reward": kind, "metrics": list(names),
+                       "delta": 0.85 if delta is None else delta,
+                       "sensors": [sensors[x]["id"] for x in letters], "targets": [targets[i]["id"] for i in tlists[e]]})
+    return engs, expect
+
+
+def _cfg_build(world, engs):
+    global _ENGINE_READY  # noqa: PLW0603
+    _ENGINE_READY = False  # scen.build() starts a fresh cluster / DB
+    try:
+        return scen.build(scen.config(world[0], CFG_NSTEPS + 1, engs, physics=CFG_STEP)), None
+    except Exception as exc:  # noqa: BLE001 - the refusal (or a crash) of the builder is what is being observed
+        return None, (type(exc).__name__, f"{type(exc).__name__}: {exc}"[:300])
+
+
+def _cfg_run_steps(sc):
+    """Step the scenario; after every step copy what each engine decided (its matrices are overwritten by the next
+    step).  Returns (snapshots {second: {engine id: {...}}}, task rows of the tasks table, error text)."""
+    from resonaate.data.task import Task  # noqa: PLC0415
+    from resonaate.physics.time.conversions import getTargetJulianDate  # noqa: PLC0415
+    from sqlalchemy.orm import Query  # noqa: PLC0415
+
+    snaps = {}
+    try:
+        for k in range(1, CFG_NSTEPS + 1):
+            sc.propagateTo(getTargetJulianDate(sc.clock.julian_date_start, timedelta(seconds=k * CFG_STEP)))
+            snaps[k * CFG_STEP] = {
+                eid: {"sensors": list(e.sensor_list), "targets": list(e.target_list),
+                      "vis": np.array(e.visibility_matrix, dtype=bool), "dec": np.array(e.decision_matrix, dtype=bool),
+                      "rew": np.array(e.reward_matrix, dtype=float), "met": np.array(e.metric_matrix, dtype=float),
+                      "names": [type(m).__name__ for m in e.reward.metrics]}
+                for eid, e in sc.tasking_engines.items()
+            }
+        rows = sc.database.getData(Query(Task))
+    except Exception as exc:  # noqa: BLE001 - an exception out of the tasking step is a finding, not a harness error
+        return snaps, [], f"{type(exc).__name__}: {exc}"[:300]
+    by_epoch = {}
+    for r in rows:
+        by_epoch.setdefault(round((r.julian_date - float(sc.clock.julian_date_start)) * 86400.0), []).append(r)
+    return snaps, by_epoch, None
+
+
+def _cfg_per_sensor_clause(res, case0, it, by_epoch, expect, pattern_class):
+    """THE clause: in the tasks table of one step a sensor id has at most one decision, counted across all engines
+    (sensors of an all-visible engine excepted: that policy tasks every visible pair)."""
+    exempt = {sid for ex in expect if ex["policy"] == "allvisible" for sid in ex["sensors"]}
+    n_eng_active = {}
+    worst = 0
+    for sec, rws in sorted(by_epoch.items()):
+        tasked, seen = {}, {}
+        for r in rws:
+            seen.setdefault(r.sensor_id, []).append(r.target_id)
+            if r.decision:
+                tasked.setdefault(r.sensor_id, []).append(r.target_id)
+        n_eng_active[sec] = sum(1 for ex in expect if any(tasked.get(sid) for sid in ex["sensors"]))
+        for sid in sorted(seen):
+            if sid in exempt:
+                continue
+            tg = sorted(tasked.get(sid, []))
+            worst = max(worst, len(tg))
+            res.case("config/engines/sensor_tasked_to_at_most_one_target_per_step", dict(case0, second=sec, sensor=sid),
+                     len(tg) <= 1, nontrivial=len(expect) >= 2 and n_eng_active[sec] >= 2,
+                     signature="C07/config/engines/sensor_tasked_to_two_targets_in_one_step/" + pattern_class,
+                     observed={"tasked_targets": tg}, expected="at most one decision per sensor id and step in the tasks table",
+                     outcome=f"engines={len(expect)},engines_tasking_this_step={min(n_eng_active[sec], 3)},tasked={len(tg)}", item=it)
+    return worst
+
+
+def _cfg_block_clauses(res, case0, it, snaps, by_epoch, expect):
+    """Per engine and step: its T_e x S_e block of the tasks table is complete and equals what the engine decided,
+    the reward column is the documented combination of the engine's CONFIGURED metric list, the decision column is the
+    policy's documented optimum of it."""
+    secs = [k * CFG_STEP for k in range(1, CFG_NSTEPS + 1)]
+    n_rows = sum(len(ex["sensors"]) * len(ex["targets"]) for ex in expect)
+    for sec in secs:
+        rws = by_epoch.get(sec, [])
+        pairs = {(r.sensor_id, r.target_id) for r in rws}
+        res.case("config/engines/task_rows_complete", dict(case0, second=sec), len(rws) == n_rows and len(pairs) == n_rows,
+                 signature="C07/config/engines/task_rows", observed=len(rws), expected=n_rows, item=it)
+        for ex in expect:
+            case = dict(case0, second=sec, engine=ex["id"], policy=ex["policy"], reward=ex["reward"], metrics=ex["metrics"])
+            pol, kind = ex["policy"], ex["reward"]
+            sids, tids = sorted(ex["sensors"]), sorted(ex["targets"])
+            t, s = len(tids), len(sids)
+            snap = snaps.get(sec, {}).get(ex["id"])
+            vis = np.zeros((t, s), dtype=bool)
+            dec = np.zeros((t, s), dtype=bool)
+            rew = np.full((t, s), np.nan)
+            for r in rws:
+                if r.sensor_id in sids and r.target_id in tids:
+                    i, j = tids.index(r.target_id), sids.index(r.sensor_id)
+                    vis[i, j], dec[i, j] = bool(r.visibility), bool(r.decision)
+                    rew[i, j] = float("nan") if r.reward is None else float(r.reward)
+            ok_snap = (snap is not None and snap["sensors"] == sids and snap["targets"] == tids and snap["vis"].shape == (t, s)
+                       and bool((snap["vis"] == vis).all()) and bool((snap["dec"] == dec).all())
+                       and bool(np.isfinite(rew).all()) and fw.maxabs(snap["rew"], rew) <= TOL)
+            res.case("config/engines/stored_block_is_the_engines_decision", case, bool(ok_snap),
+                     signature="C07/config/engines/stored_block_differs_from_engine_matrices",
+                     observed=None if ok_snap else {"visibility": vis.tolist(), "reward": rew.tolist(), "decision": dec.tolist()},
+                     expected=None if (ok_snap or snap is None) else {"visibility": snap["vis"].tolist(), "reward": snap["rew"].tolist(),
+                                                                      "decision": snap["dec"].tolist()}, item=it)
+            if not ok_snap:
+                continue
+            # documented combination of the CONFIGURED list on the engine's metric columns (normalisation is idempotent)
+            met = snap["met"]
+            names, types = ex["metrics"], [CFG_METRICS[n][1] for n in ex["metrics"]]
+            ok_p = met.ndim == 3 and met.shape == (t, s, len(names))
+            res.case("config/engines/one_metric_column_per_configured_metric", case, ok_p,
+                     signature=f"C07/config/engines/{kind}/metric_columns_differ_from_configured_list",
+                     observed=list(met.shape), expected=[t, s, len(names)], item=it)
+            ref = None
+            if not ok_p and met.ndim == 3 and met.shape[:2] == (t, s) and met.shape[2] == len(snap["names"]) and set(names) <= set(snap["names"]):
+                # the engine carries other columns than configured: evaluate the documented combination of the configured
+                # list all the same, taking for every configured entry the engine's column of that metric class
+                met = np.stack([met[:, :, snap["names"].index(n)] for n in names], axis=-1)
+            if met.ndim == 3 and met.shape == (t, s, len(names)):
+                norm = orc.normalise_ref(np.where(vis[..., None], met, 0.0))
+                ok_n = bool((norm.reshape(-1, len(names)).max(axis=0) <= 1.0 + 1e-12).all())
+                res.case("config/engines/normalised_at_most_one", case, ok_n, signature=f"C07/config/engines/{kind}/normalised_max_above_one",
+                         observed=norm.reshape(-1, len(names)).max(axis=0).tolist(), item=it)
+                ref = orc.reward_ref(kind, types, norm, ex["delta"])
+                ok_r = fw.maxabs(rew, ref) <= TOL
+                res.case(f"config/engines/reward_column_is_combination_of_configured_list/{kind}", case, bool(ok_r),
+                         nontrivial=bool(vis.any()) and len(set(names)) < len(names),
+                         signature=f"C07/config/engines/{kind}/reward_column_is_not_the_combination_of_the_configured_list",
+                         observed=None if ok_r else rew.tolist(), expected=None if ok_r else ref.tolist(),
+                         outcome=f"len={len(names)},distinct_names={len(set(names))},visible={int(vis.sum())}", item=it)
+            base = rew if ref is None else ref
+            masked = bool((rew[~vis] == 0.0).all())
+            res.case("config/engines/reward_masked_by_visibility", case, masked,
+                     signature="C07/config/engines/reward_of_invisible_pair_nonzero", observed=rew.tolist(), expected=vis.tolist(), item=it)
+            feas = not (dec & ~vis).any()
+            if pol == "munkres":
+                _opt, dcodes, near = orc.assignment_oracle(base[None], vis[None], tol=TOL)
+                good = feas and dec.sum(axis=0).max() <= 1 and dec.sum(axis=1).max() <= 1 and bool((near & (dcodes == orc.pack(dec[None])[:, None])).any())
+            elif pol == "greedy":
+                okg, _u, _ = orc.greedy_oracle(base[None], vis[None], dec[None], tol=TOL)
+                good = feas and bool(okg[0])
+            elif pol == "allvisible":
+                good = bool((dec == vis).all())
+            else:
+                good = feas and bool((dec.sum(axis=0) == vis.any(axis=0)).all())
+            res.case(f"config/engines/decision_column/{pol}", dict(case, visible=vis.tolist(), reward_matrix=rew.tolist()), bool(good),
+                     nontrivial=0 < int(vis.sum()) < t * s or int(vis.sum(axis=0).max()) >= 2,
+                     signature=f"C07/config/engines/{pol}/decision_column", observed=dec.tolist(),
+                     expected="policy reference on the documented reward of the configured metric list / visibility column",
+                     outcome=f"visible={int(vis.sum())},tasked={int(dec.sum())}", item=it)
+            # (a scenario with a random-policy engine: later steps of every engine that shares a target with it depend on
+            # the draws; reproducibility of the draws is the subject of _run_maskonly)
+            if not any(e2["policy"] == "random" for e2 in expect):
+                res.observe(vis, dec, np.round(rew, 9))
+            else:
+                res.observe(len(rws))
+
+
+def _cfg_structure_clauses(res, case0, it, sc, expect):
+    """What the builder made of the 'engines' section: one engine per configured engine, with exactly the configured
+    sensors / targets, the configured policy and a reward over the configured metric LIST."""
+    got_ids = sorted(sc.tasking_engines)
+    res.case("config/engines/one_engine_per_configured_engine", case0, got_ids == sorted(ex["id"] for ex in expect),
+             signature="C07/config/engines/engine_ids", observed=got_ids, expected=sorted(ex["id"] for ex in expect), item=it)
+    for ex in expect:
+        eng = sc.tasking_engines.get(ex["id"])
+        if eng is None:
+            continue
+        case = dict(case0, engine=ex["id"])
+        got = {"sensors": list(eng.sensor_list), "targets": list(eng.target_list), "decision": type(eng.decision).__name__,
+               "reward": type(eng.reward).__name__, "metrics": [type(m).__name__ for m in eng.reward.metrics],
+               "num_metrics": int(eng.num_metrics)}
+        want = {"sensors": sorted(ex["sensors"]), "targets": sorted(ex["targets"]), "decision": SCEN_POLICIES[ex["policy"]],
+                "reward": CFG_REWARD_LABEL[ex["reward"]], "metrics": ex["metrics"], "num_metrics": len(ex["metrics"])}
+        bad = [k for k in want if got[k] != want[k]]
+        res.case("config/engines/engine_is_built_as_configured", case, not bad, nontrivial=len(expect) >= 2,
+                 signature="C07/config/engines/engine_differs_from_configuration/" + ("+".join(bad) if bad else "none"),
+                 observed=None if not bad else {k: got[k] for k in bad}, expected=None if not bad else {k: want[k] for k in bad},
+                 outcome=f"metrics={len(ex['metrics'])},distinct={len(set(ex['metrics']))}", item=it)
+
+
+def _run_cfgscen(res, item):
+    """A LEGAL 'engines' section (no sensor id twice): must build, and every step of the tasks table satisfies the
+    at-most-one clause per sensor id across engines and the per-engine clauses."""
+    _, ne, k, tp, variant, seed = item
+    legal, _illegal = _cfg_split(ne)
+    pattern = legal[k]
+    world = _cfg_world(seed)
+    engs, expect = _cfg_engines(pattern, tp, variant, k, world, seed)
+    case0 = {"engines": ne, "sensor_lists": ["".join(p) for p in pattern], "target_lists": CFG_TPAT_NAMES[tp], "variant": variant}
+    sc, err = _cfg_build(world, engs)
+    res.case("config/engines/legal_configuration_builds", case0, sc is not None, nontrivial=ne >= 2,
+             signature="C07/config/engines/legal_configuration_refused", observed=None if err is None else err[1],
+             expected="a scenario (no sensor id is listed twice)", outcome=f"engines={ne},targets={CFG_TPAT_NAMES[tp]}", item=item)
+    if sc is None:
+        return
+    _cfg_structure_clauses(res, case0, item, sc, expect)
+    snaps, by_epoch, err = _cfg_run_steps(sc)
+    if err is not None:
+        res.case("config/engines/no_exception", case0, False, signature="C07/config/engines/exception", observed=err,
+                 expected=f"{CFG_NSTEPS} tasking steps complete", item=item)
+        return
+    _cfg_per_sensor_clause(res, case0, item, by_epoch, expect, "legal")
+    _cfg_block_clauses(res, case0, item, snaps, by_epoch, expect)
+
+
+def _run_cfgrefuse(res, item):
+    """An ILLEGAL 'engines' section (some sensor id occurs twice: within one engine, or in two engines whose sensor
+    lists are identical, nested or only partly overlapping) must be refused at build time with DuplicateSensorError.
+    If it is accepted the scenario is run all the same (first two accepted configurations of the item) to show what
+    the tasks table then contains."""
+    _, ne, c0, c1, seed, tier = item
+    _legal, illegal = _cfg_split(ne)
+    world = _cfg_world(seed)
+    shown = 0
+    for k in range(c0, min(c1, len(illegal))):
+        pattern = illegal[k]
+        pclass = _cfg_pattern_class(pattern)
+        combos = [(a, b) for a in range(3) for b in range(4)] if tier == "thorough" else [((k + seed) % 3, (k // 3 + seed) % 4)]
+        for tp, variant in combos:
+            engs, expect = _cfg_engines(pattern, tp, variant, k, world, seed)
+            case0 = {"engines": ne, "sensor_lists": ["".join(p) for p in pattern], "target_lists": CFG_TPAT_NAMES[tp],
+                     "variant": variant, "overlap": pclass}
+            it = ("cfgrefuse", ne, k, k + 1, seed, tier)
+            sc, err = _cfg_build(world, engs)
+            ok = sc is None and err[0] == DuplicateSensorError.__name__
+            sig = "accepted" if sc is not None else "refused_with_other_exception"
+            res.case("config/engines/overlapping_sensor_lists_refused", case0, ok, nontrivial=ne >= 2 and pclass != "sensor_repeated_within_one_engine",
+                     signature=f"C07/config/engines/overlapping_sensor_lists_{sig}/{pclass}",
+                     observed="scenario built" if sc is not None else err[1], expected="DuplicateSensorError at build time",
+                     outcome=pclass, item=it)
+            res.observe(ok)
+            if sc is not None and shown < 2:
+                shown += 1
+                _snaps, by_epoch, err2 = _cfg_run_steps(sc)
+                if err2 is not None:
+                    res.case("config/engines/no_exception", case0, False, signature="C07/config/engines/exception", observed=err2, item=it)
+                else:
+                    _cfg_per_sensor_clause(res, case0, it, by_epoch, expect, pclass)
+
+
+def _run_cfgbadreward(res, item):
+    """The same refusals / list hand-over through the whole builder: an engine whose typed reward lists a metric twice
+    must not come out of ScenarioBuilder as a working engine; a simple summation with repeats must keep them."""
+    seed = item[1]
+    world = _cfg_world(seed)
+    _start, targets, sensors = world
+    bad = [
+        ("cost_constrained", ("ShannonInformation", "ShannonInformation", "LyapunovStability", "SlewTimeMinimization")),
+        ("cost_constrained", ("ShannonInformation", "LyapunovStability", "SlewTimeMinimization", "SlewTimeMinimization")),
+        ("cost_constrained", ("LyapunovStability", "ShannonInformation", "LyapunovStability", "SlewTimeMinimization", "LyapunovStability")),
+        ("combined", ("TimeSinceObservation", "ShannonInformation", "LyapunovStability", "SlewTimeMinimization", "TimeSinceObservation")),
+        ("combined", ("ShannonInformation", "ShannonInformation", "LyapunovStability", "SlewTimeMinimization", "TimeSinceObservation")),
+        ("combined", ("ShannonInformation", "LyapunovStability", "LyapunovStability", "SlewTimeMinimization", "SlewTimeMinimization",
+                      "TimeSinceObservation")),
+    ]
+    for kind, names in bad:
+        for where in (0, 1):  # the offending engine is the only / the second engine
+            engs = []
+            if where == 1:
+                engs.append(scen.engine(5, [deepcopy(targets[1])], [deepcopy(sensors["a"])]))
+            engs.append(scen.engine(2, [deepcopy(targets[2]), deepcopy(targets[3])], [deepcopy(sensors["b"])],
+                                    reward=CFG_REWARD_LABEL[kind], metrics=[{"name": n} for n in names]))
+            case = {"reward": kind, "metrics": list(names), "engines": len(engs), "route": "ScenarioBuilder"}
+            sc, err = _cfg_build(world, engs)
+            legal, want_exc = _cfg_legal(kind, list(names))
+            ok = sc is None and err[0] in want_exc
+            built = None if sc is None else [type(m).__name__ for m in sc.tasking_engines[2].reward.metrics]
+            res.case(f"config/reward/illegal_metric_list_refused/{kind}", case, ok and not legal, nontrivial=True,
+                     signature=f"C07/config/reward/{kind}/" + ("illegal_metric_list_accepted" if sc is not None else "illegal_metric_list_refused_with_other_exception"),
+                     observed={"metrics_of_built_reward": built} if sc is not None else err[1], expected=" or ".join(want_exc),
+                     outcome="count_wrong", item=item)
+            res.observe(ok)
+
+
 # ------------------------------------------------------------------------------------------------ dispatch
 _RUNNERS = {
     "lat": _run_lat,
@@ -1358,6 +2116,10 @@ _RUNNERS = {
     "reward": _run_reward,
     "engine": _run_engine,
     "scenario": _run_scenario,
+    "cfgreward": _run_cfgreward,
+    "cfgscen": _run_cfgscen,
+    "cfgrefuse": _run_cfgrefuse,
+    "cfgbadreward": _run_cfgbadreward,
 }
 
 
